@@ -16,7 +16,11 @@ Scenarios == {"fresh",                \* built, never solved
               "infeasible3",          \* LMI [[t, 0], [0, -1]] >> 0
               "other-solved",         \* model A solved, then a NEW model B built and not solved: B's objects
               "solved"}               \* sanity: a successful solve
-Objects == {"leafpoint", "derivedpoint", "leafexpr", "derivedexpr", "constraint", "lmi", "metric"}
+Objects == {"leafpoint", "derivedpoint", "leafexpr", "derivedexpr", "constraint", "lmi", "metric",
+            "zeropoint",       \* 0 * x0: a derived point whose only term has weight zero
+            "zeroexpr",        \* 0 * f(x0): the stored term has weight zero (a product by a scalar is not pruned)
+            "zeroprod"}        \* (1 - theta) * |x1 - xs|^2 with theta = 1
+\* (sums, differences and comparisons prune zero terms: 0 * f(x0) + 0 is the CONSTANT 0 and has a value without any solve)
 Accessors(o) == IF o \in {"constraint", "lmi"} THEN {"eval", "eval_dual"} ELSE {"eval"}
 HasSolution(scn) == scn = "solved"
 Expected(scn, o, a) == IF HasSolution(scn) THEN "ok" ELSE "raises:ValueError"
